@@ -7,9 +7,11 @@ import (
 	"os"
 	"sort"
 
+	_ "github.com/formancehq/ledger/verifh/phttp"
 	_ "github.com/formancehq/ledger/verifh/pimport"
 	_ "github.com/formancehq/ledger/verifh/pnum"
 	_ "github.com/formancehq/ledger/verifh/pquery"
+	_ "github.com/formancehq/ledger/verifh/pschema"
 	_ "github.com/formancehq/ledger/verifh/props"
 	"github.com/formancehq/ledger/verifh/reg"
 )
